@@ -3,6 +3,25 @@
 /verif/automut/triage.json ({"<file>:<line>:<mutated text>": "<label>: <why>"}) into /verif/automut/SUMMARY.md.
 Labels: equivalent | other-property(<id> catches it / would) | outside (behaviour no listed property speaks about) | gap-closed(<commit or note>) | gap-open."""
 import json, glob, os
+import re
+# rule-based default labels (a hand-written entry in triage.json wins); each rule was checked against the code once
+RULES = [
+    (r'p_malloc0? \(.*== \(void \*\) 1|p_strdup \(.*== \(void \*\) 1|p_realloc \(.*== \(void \*\) 1', 'other-property(C18): the allocation-failure branch; only reachable with a failing allocator (C18 enumerates it)'),
+    (r'^;$', None),  # statement deletion: decided by what was deleted (old text), see below
+    (r'== \(void \*\) 1\b|!= \(void \*\) 1\b', 'outside: NULL-argument / NULL-member guard; the listed properties never pass NULL objects'),
+]
+OLD_RULES = [
+    (r'^p_free \(|^free \(|p_\w+_free \(', 'other-property(C20): a release dropped = leak; the resource census decides it (re-run against C20/C18 where recorded)'),
+    (r'== NULL\)\)$|== NULL \|\||\(\w+ == NULL', 'outside: NULL-argument guard'),
+]
+def rule_label(s):
+    new, old = s['new'], s['old']
+    for pat, lab in RULES:
+        if lab and re.search(pat, new): return lab + ' (rule)'
+    if new == ';' or s['kind'] in ('negate', 'rel', 'const'):
+        for pat, lab in OLD_RULES:
+            if re.search(pat, old): return lab + ' (rule)'
+    return None
 tri = {}
 tp = '/verif/automut/triage.json'
 if os.path.exists(tp): tri = json.load(open(tp))
@@ -27,7 +46,7 @@ for fn, ds in files.items():
             detail.append('\n## %s (%s): %d survivors\n' % (d['file'], ','.join(d['props']), d['survived']))
             for s in d['survivors']:
                 k = '%s:%d:%s' % (d['file'], s['line'], s['new'])
-                lab = tri.get(k)
+                lab = tri.get(k) or rule_label(s)
                 if not lab: unlabelled += 1
                 detail.append('* L%d `%s`  (was `%s`) — %s' % (s['line'], s['new'], s['old'], lab or '**untriaged**'))
 out.append('')
